@@ -693,6 +693,47 @@ theorem noOther_rangeTail (c : Cfg) (bounds : R) (v : PyVal) (hlen : c.length = 
     exact noOther_rangeOrder_pair c a b
   | _ => simp [PyVal.isNone, PyVal.isTuple] at hv
 
+/-! ### NaN -/
+
+@[simp] theorem ExtRat.le_nan_left (a : ExtRat) : ExtRat.le .nan a = false := rfl
+@[simp] theorem ExtRat.le_nan_right (a : ExtRat) : ExtRat.le a .nan = false := by cases a <;> rfl
+@[simp] theorem ExtRat.lt_nan_left (a : ExtRat) : ExtRat.lt .nan a = false := rfl
+@[simp] theorem ExtRat.lt_nan_right (a : ExtRat) : ExtRat.lt a .nan = false := by cases a <;> rfl
+
+theorem isNumber_eq_num {v : PyVal} (h : v.isNumber = true) : ∃ k q, v = .num k q := by
+  cases v <;> simp [PyVal.isNumber] at h
+  exact ⟨_, _, rfl⟩
+
+/-- NaN is inside no interval that has a numeric bound on some side -/
+theorem nan_not_inBounds (k : NumKind) (lo hi : Option PyVal) (incl : Bool × Bool)
+    (hside : lo.isSome = true ∨ hi.isSome = true)
+    (hnum : BoundsOfType PyVal.isNumber (some (lo, hi))) :
+    ¬ InBounds (some (lo, hi)) incl (.num k .nan) := by
+  rcases incl with ⟨il, iu⟩
+  simp only [BoundsOfType] at hnum
+  rcases lo with _ | l <;> rcases hi with _ | u <;> simp at hside
+  · obtain ⟨k', q', rfl⟩ := isNumber_eq_num hnum.2
+    cases iu <;> simp [InBounds, AboveOpt, BelowOpt, Below, PyVal.le?, PyVal.lt?]
+  · obtain ⟨k', q', rfl⟩ := isNumber_eq_num hnum.1
+    cases il <;> simp [InBounds, AboveOpt, BelowOpt, Above, PyVal.le?, PyVal.lt?]
+  · obtain ⟨k', q', rfl⟩ := isNumber_eq_num hnum.1
+    cases il <;> simp [InBounds, AboveOpt, BelowOpt, Above, PyVal.le?, PyVal.lt?]
+
+/-- … and the bounds test of the Number family answers it with a ValueError -/
+theorem numberBounds_nan (an : Bool) (k : NumKind) (lo hi : Option PyVal) (incl : Bool × Bool)
+    (hside : lo.isSome = true ∨ hi.isSome = true)
+    (hnum : BoundsOfType PyVal.isNumber (some (lo, hi))) :
+    numberBounds an (some (lo, hi)) incl (.num k .nan) = valueErr := by
+  rcases incl with ⟨il, iu⟩
+  simp only [BoundsOfType] at hnum
+  rcases lo with _ | l <;> rcases hi with _ | u <;> simp at hside
+  · obtain ⟨k', q', rfl⟩ := isNumber_eq_num hnum.2
+    cases iu <;> simp [numberBounds, PyVal.isNone, PyVal.isCallable, PyVal.le?, PyVal.lt?, require, seq, valueErr]
+  · obtain ⟨k', q', rfl⟩ := isNumber_eq_num hnum.1
+    cases il <;> simp [numberBounds, PyVal.isNone, PyVal.isCallable, PyVal.le?, PyVal.lt?, PyVal.ge?, PyVal.gt?, require, seq, valueErr]
+  · obtain ⟨k', q', rfl⟩ := isNumber_eq_num hnum.2
+    cases iu <;> simp [numberBounds, PyVal.isNone, PyVal.isCallable, PyVal.le?, PyVal.lt?, require, seq, valueErr]
+
 /-! ### constructors -/
 
 theorem specDefault_eq (a : Args) : specDefault a = ctorDefault a := by
@@ -713,7 +754,7 @@ theorem filter_wf (c : Cfg) (h : WF c) : Option.filter (fun c => decide (WF c)) 
 
 /-- on clean arguments the length the constructor installs is the declared one -/
 theorem modelLength_eq (a : Args) (hc : CleanArgs a) (ht : isTupleFamily a.ptype = true)
-    (_hn : ¬ ((lengthArg a).isNone = true ∧ (ctorDefault a).isNone = true)) :
+    (hn : ¬ ((lengthArg a).isNone = true ∧ (ctorDefault a).isNone = true)) :
     modelLength a = specLength a := by
   unfold modelLength specLength
   unfold CleanArgs declaredLength at hc
